@@ -1,10 +1,13 @@
 #!/usr/bin/env python3
-"""Runs the repository's test suite and compares with /root/.vp/BASELINE.json stable_pass."""
+"""usage: baseline_check.py [<worktree>=/repo]   Runs the test suite of the furax worktree (with its own src on
+PYTHONPATH) and reports which of the pinned stable-pass tests no longer pass. Exit 0 = none."""
 import json, subprocess, sys, tempfile, xml.etree.ElementTree as ET, os
+wt = os.path.abspath(sys.argv[1] if len(sys.argv) > 1 else '/repo')
 base = json.load(open('/root/.vp/BASELINE.json'))
 out = tempfile.mktemp(suffix='.xml', dir='/tmp')
-cmd = base['cmd'].replace('<file>', out)
-subprocess.run(cmd, shell=True, stdout=subprocess.DEVNULL, stderr=subprocess.DEVNULL)
+cmd = base['cmd'].replace('<file>', out).replace('cd /repo', f'cd {wt}')
+env = dict(os.environ, PYTHONPATH=f'{wt}/src', PYTHONDONTWRITEBYTECODE='1')
+subprocess.run(cmd, shell=True, stdout=subprocess.DEVNULL, stderr=subprocess.DEVNULL, env=env)
 passed = set()
 for tc in ET.parse(out).getroot().iter('testcase'):
     if not any(ch.tag in ('failure', 'error', 'skipped') for ch in tc):
@@ -12,6 +15,6 @@ for tc in ET.parse(out).getroot().iter('testcase'):
 os.unlink(out)
 missing = [t for t in base['stable_pass'] if t not in passed]
 print(f'stable_pass {len(base["stable_pass"])}, passed now {len(passed)}, regressions {len(missing)}')
-for t in missing[:20]:
+for t in missing[:30]:
     print('  REGRESSION', t)
 sys.exit(1 if missing else 0)
